@@ -9,6 +9,11 @@ mod layout;
 mod s_events;
 mod s_frames;
 mod s_packets;
+mod mock;
+mod s_links;
+
+#[global_allocator]
+static ALLOC: mock::Counting = mock::Counting;
 
 use std::io::{BufRead, Write};
 use wire::*;
@@ -43,6 +48,9 @@ fn main() {
                 "CAD" => s_frames::gen_cad(&mut r, thorough, &mut cx),
                 "FRG" | "REA" => s_packets::gen_packets(&mut r, thorough, &mut cx),
                 "BLD" => s_packets::gen_bld(&mut r, thorough, &mut cx),
+                "RCV" => s_links::gen_rcv(&mut r, thorough, &mut cx),
+                "LNK" => s_links::gen_lnk(&mut r, thorough, &mut cx),
+                "SND" => s_links::gen_snd(&mut r, thorough, &mut cx),
                 s => { eprintln!("unknown stream {}", s); std::process::exit(2); }
             }
         }
@@ -58,6 +66,9 @@ fn main() {
                 "FRG" => s_packets::exec_frg,
                 "REA" => s_packets::exec_rea,
                 "BLD" => s_packets::exec_bld,
+                "RCV" => s_links::exec_rcv,
+                "LNK" => s_links::exec_lnk,
+                "SND" => s_links::exec_snd,
                 s => { eprintln!("unknown stream {}", s); std::process::exit(2); }
             };
             let stdin = std::io::stdin();
